@@ -59,8 +59,8 @@ func init() {
 			{Name: "handleTriggerUpdate returns without joining its workers", File: resolveGo, Rule: "C12-R3", Key: "join",
 				Old: "\t\t})\n\t}\n\twg.Wait()\n}", New: "\t\t})\n\t}\n}"},
 			{Name: "unsubscribe on flush error runs with writeMu still held (defer-unlock refactor)", File: resolveGo, Rule: "C12-R4", Key: "acquire",
-				Old: "\tif err := sub.writer.Flush(); err != nil {\n\t\tsub.writeMu.Unlock()\n\t\t// If flush fails (e.g. client disconnected), remove the subscription.\n\t\t_ = r.UnsubscribeSubscription(sub.id)\n\t\treturn\n\t}",
-				New: "\tif err := sub.writer.Flush(); err != nil {\n\t\t// If flush fails (e.g. client disconnected), remove the subscription.\n\t\t_ = r.UnsubscribeSubscription(sub.id)\n\t\tsub.writeMu.Unlock()\n\t\treturn\n\t}"},
+				Old: "\tif err := sub.writer.Flush(); err != nil {\n\t\tsub.writeMu.Unlock()\n\t\t// If flush fails (e.g. client disconnected), remove the subscription.\n\t\tr.unsubscribeState(sub)\n\t\treturn\n\t}",
+				New: "\tif err := sub.writer.Flush(); err != nil {\n\t\t// If flush fails (e.g. client disconnected), remove the subscription.\n\t\tr.unsubscribeState(sub)\n\t\tsub.writeMu.Unlock()\n\t\treturn\n\t}"},
 			{Name: "done() called directly from handleTriggerComplete", File: resolveGo, Rule: "C12-R2", Key: "call-done",
 				Old: "\t\tif !s.removed.Load() {\n\t\t\ts.complete()\n\t\t}", New: "\t\tif !s.removed.Load() {\n\t\t\ts.complete()\n\t\t\ts.done()\n\t\t}"},
 		},
